@@ -108,8 +108,12 @@ namespace Pistache::Http
         bool match_attribute(const char* name, size_t len, StreamCursor& cursor,
                              Cookie* obj, T Cookie::*attr)
         {
-            if (match_string(name, len, cursor))
+            StreamCursor::Revert revert(cursor);
+            // the attribute name must be complete: "Pathology=x" is an extension
+            // attribute, not Path
+            if (match_string(name, len, cursor) && (cursor.eof() || cursor.current() == '=' || cursor.current() == ';'))
             {
+                revert.ignore();
                 AttributeMatcher<T>::match(cursor, obj, attr);
                 cursor.advance(1);
 
